@@ -58,29 +58,20 @@ def liftM : Except MErr Node → Except AErr Node
 
 /-! ## Writing a node back at an address (`parent[parentref] = merged_data`) -/
 
-mutual
+/-- `parent[parentref] = c'`: the child under one reference replaced (position kept). -/
+def setChild (n : Node) (r : Ref) (c' : Node) : Node :=
+  match n, r with
+  | .seq a items, .idx i => .seq a (items.set i c')
+  | .map a es, .key k => .map a (setKey k c' es)
+  | n, _ => n
+
 /-- The document in which the node at address `q` is `new` (unchanged when `q` leads nowhere). -/
 def setAt (new : Node) : Node → Addr → Node
   | _, [] => new
-  | .seq a items, r :: rest =>
-    match r with
-    | .idx i => .seq a (setAtList new items i rest)
-    | _ => .seq a items
-  | .map a es, r :: rest =>
-    match r with
-    | .key k => .map a (setAtEntries new es k rest)
-    | _ => .map a es
-  | .set a ms, _ :: _ => .set a ms
-  | .scalar a v, _ :: _ => .scalar a v
-def setAtList (new : Node) : List Node → Nat → Addr → List Node
-  | [], _, _ => []
-  | c :: cs, 0, rest => setAt new c rest :: cs
-  | c :: cs, i + 1, rest => c :: setAtList new cs i rest
-def setAtEntries (new : Node) : List (Key × Node) → Key → Addr → List (Key × Node)
-  | [], _, _ => []
-  | (k', c) :: es, k, rest =>
-    if k' = k then (k', setAt new c rest) :: es else (k', c) :: setAtEntries new es k rest
-end
+  | n, r :: rest =>
+    match n.child? r with
+    | some c => setChild n r (setAt new c rest)
+    | none => n
 
 /-! ## One target -/
 
@@ -104,9 +95,15 @@ def mergeTarget (env : Env) (isRoot : Bool) (l r : Node) : Except AErr Node :=
     | .scalar la _ => if isRoot then .ok (.scalar ra v) else setScalar la v
     | _ => liftM (insertScalar env l ra v)
 
+def Ref.isMember : Ref → Bool
+  | .member _ => true
+  | _ => false
+
+def hasMember (a : Addr) : Bool := a.any Ref.isMember
+
 /-- One iteration of the loop over the target nodes: merge into the node at `a`, write it back. -/
 def mergeOne (env : Env) (r : Node) (d : Node) (a : Addr) : Except AErr Node :=
-  if lastIsMember a then .error .outOfModel          -- a set member as the target
+  if hasMember a then .error .outOfModel             -- a set member as the target
   else
     match d.get? a with
     | none => .error .outOfModel                     -- nested targets: the address is gone
@@ -168,44 +165,36 @@ structure CreatedN where
   fresh : Bool
   deriving Inhabited
 
-mutual
+/-- The reference under which the creation block adds the missing element. -/
+def newRef (n : Node) (seg : PSeg) : Ref :=
+  match n with
+  | .seq .. => .idx (match intOfSeg seg with | some i => i.toNat | none => 0)
+  | _ => .key (match seg with | .key s => .str s | .index _ => .int 0)
+
+def isPlainNull : Node → Bool
+  | .scalar none .null => true
+  | _ => false
+
+/-- `_get_optional_nodes(data, path, rhs)` for a straight-line path: follow existing segments, stop
+at a `null` node (it is relayed whatever segments remain), create the rest. -/
 def createPathN (leaf : Node) : Node → List PSeg → Except Err CreatedN
   | n, [] => .ok ⟨n, [], false⟩
-  | .seq a items, seg :: rest =>
-    match lookSeg (.seq a items) seg with
+  | n, seg :: rest =>
+    match lookSeg n seg with
     | .crash e => .error e
-    | .missing => (createHereN (.seq a items) seg rest leaf).map
-        (fun n' => ⟨n', .idx (match intOfSeg seg with | some i => i.toNat | none => 0) :: fillAddr rest, true⟩)
-    | .found (.idx i) =>
-      (createListN leaf items i rest).map (fun (cs, ad, f) => ⟨.seq a cs, .idx i :: ad, f⟩)
-    | .found _ => .error .outOfModel
-  | .map a es, seg :: rest =>
-    match lookSeg (.map a es) seg with
-    | .crash e => .error e
-    | .missing => (createHereN (.map a es) seg rest leaf).map
-        (fun n' => ⟨n', .key (match seg with | .key s => .str s | .index _ => .int 0) :: fillAddr rest, true⟩)
-    | .found (.key k) =>
-      (createEntriesN leaf es k rest).map (fun (es', ad, f) => ⟨.map a es', .key k :: ad, f⟩)
-    | .found _ => .error .outOfModel
-  | .set _ _, _ :: _ => .error .outOfModel
-  | .scalar _ _, _ :: _ => .error (.ypath .generic)
-def createListN (leaf : Node) : List Node → Nat → List PSeg → Except Err (List Node × Addr × Bool)
-  | [], _, _ => .error .outOfModel
-  | c :: cs, 0, rest =>
-    match c with
-    | .scalar none .null => .ok (c :: cs, [], false)
-    | _ => (createPathN leaf c rest).map (fun r => (r.doc :: cs, r.addr, r.fresh))
-  | c :: cs, i + 1, rest => (createListN leaf cs i rest).map (fun (cs', ad, f) => (c :: cs', ad, f))
-def createEntriesN (leaf : Node) : List (Key × Node) → Key → List PSeg →
-    Except Err (List (Key × Node) × Addr × Bool)
-  | [], _, _ => .error .outOfModel
-  | (k', c) :: es, k, rest =>
-    if k' = k then
-      match c with
-      | .scalar none .null => .ok ((k', c) :: es, [], false)
-      | _ => (createPathN leaf c rest).map (fun r => ((k', r.doc) :: es, r.addr, r.fresh))
-    else (createEntriesN leaf es k rest).map (fun (es', ad, f) => ((k', c) :: es', ad, f))
-end
+    | .missing =>
+      match createHereN n seg rest leaf with
+      | .error e => .error e
+      | .ok n' => .ok ⟨n', newRef n seg :: fillAddr rest, true⟩
+    | .found r =>
+      match n.child? r with
+      | none => .error .outOfModel
+      | some c =>
+        if isPlainNull c then .ok ⟨n, [r], false⟩
+        else
+          match createPathN leaf c rest with
+          | .error e => .error e
+          | .ok cr => .ok ⟨setChild n r cr.doc, r :: cr.addr, cr.fresh⟩
 
 /-- The default value the optional query is seeded with: `Nodes.wrap_type(rhs)` — a container as
 it is, a Scalar through the C09 `wrapType`. -/
